@@ -36,44 +36,48 @@ func ruleR06_1(w *World, r *Report, onlyIgnore bool) {
 		return
 	}
 	owner := "PushPullHandler.pushOperations"
+	d := deepOf(fn)
 
 	// the error arm: return of PushPullMissingOps
 	nErr := 0
-	forEachInstr(fn, func(in ssa.Instruction) {
-		ret, ok := in.(*ssa.Return)
-		if !ok || len(ret.Results) != 1 {
+	d.each(func(x dins) {
+		ret, ok := x.in.(*ssa.Return)
+		if !ok || len(ret.Results) != 1 || x.n != d.root {
 			return
 		}
-		c, ok := ret.Results[0].(*ssa.Call)
-		if !ok || calleeName(c) != "New" {
-			return
+		for _, v := range resolvePhis(ret.Results[0]) {
+			c, ok := v.(*ssa.Call)
+			if !ok || calleeName(c) != "New" {
+				continue
+			}
+			code, _ := constInt(c.Call.Args[0])
+			nErr++
+			paths, okp := d.paths(dins{x.n, c}, pushAbs)
+			good := okp && allLitPathsHaveLin(paths, litNotAccept, litNotDuplicate)
+			isMissing := errorCodeName(u, code) == "PushPullMissingOps"
+			r.Check(good && isMissing, owner+"/fail arm", u.Pos(ret.Pos()), "fails only for seq > Cseq+1 with PushPullMissingOps",
+				fmt.Sprintf("the failing arm is reached under %v with code %s; expected exactly 'seq != Cseq+1 and seq > Cseq' with PushPullMissingOps (a duplicate must be ignored, not refused)", linsOf(paths), errorCodeName(u, code)))
 		}
-		code, _ := constInt(c.Call.Args[0])
-		nErr++
-		paths, okp := pathLinCmps(fn, ret, pushAbs)
-		good := okp && allPathsHave(paths, litNotAccept, litNotDuplicate)
-		isMissing := errorCodeName(u, code) == "PushPullMissingOps"
-		r.Check(good && isMissing, owner+"/fail arm", u.Pos(ret.Pos()), "fails only for seq > Cseq+1 with PushPullMissingOps",
-			fmt.Sprintf("the failing arm is reached under %v with code %s; expected exactly 'seq != Cseq+1 and seq > Cseq' with PushPullMissingOps (a duplicate must be ignored, not refused)", paths, errorCodeName(u, code)))
 	})
 	if nErr == 0 {
 		r.Bad(owner+"/fail arm", u.Pos(fn.Pos()), "no arm returns PushPullMissingOps: a gap in the client's sequence would be accepted silently")
 	}
+	apps := d.stores("$0.pushingOperations")
 	if onlyIgnore {
-		// the ignore arm stores nothing: every append / Sseq store needs the accept literal (checked below in R06.1);
-		// here: appends are on the accept edge
-		for _, st := range storesTo(fn, "$0.pushingOperations") {
-			paths, okp := pathLinCmps(fn, st, pushAbs)
-			r.Check(okp && allPathsHave(paths, litAccept), owner+"/append only on accept", u.Pos(st.Pos()), "append under seq == Cseq+1", fmt.Sprintf("an operation is appended for storage under %v", paths))
+		for _, st := range apps {
+			paths, okp := d.paths(st, pushAbs)
+			r.Check(okp && allLitPathsHaveLin(paths, litAccept), owner+"/append only on accept", d.pos(u, st), "append under seq == Cseq+1", fmt.Sprintf("an operation is appended for storage under %v", linsOf(paths)))
 		}
 		return
 	}
 
 	// the accept arm
-	incs := []*ssa.Store{}
-	for _, st := range storesTo(fn, "$0.currentCP.Sseq") {
-		if inLoop(st.Block()) {
+	var incs, starts []dins
+	for _, st := range d.stores("$0.currentCP.Sseq") {
+		if d.inLoop(st) {
 			incs = append(incs, st)
+		} else {
+			starts = append(starts, st)
 		}
 	}
 	if len(incs) != 1 {
@@ -81,46 +85,55 @@ func ruleR06_1(w *World, r *Report, onlyIgnore bool) {
 		return
 	}
 	inc := incs[0]
-	paths, okp := pathLinCmps(fn, inc, pushAbs)
-	val := abstractLin(canonLinear(inc.Val), pushAbs).String()
-	r.Check(okp && allPathsHave(paths, litAccept) && val == "+CP.Sseq+1", owner+"/accept arm: Sseq++", u.Pos(inc.Pos()), "Sseq = Sseq+1 under seq == Cseq+1",
-		fmt.Sprintf("the server sequence becomes %s under %v; expected Sseq+1 under seq == Cseq+1 (consecutive numbers, no holes after skipped duplicates)", val, paths))
+	paths, okp := d.paths(inc, pushAbs)
+	val := abstractLin(d.linear(inc.n, inc.in.(*ssa.Store).Val), pushAbs).String()
+	r.Check(okp && allLitPathsHaveLin(paths, litAccept) && val == "+CP.Sseq+1", owner+"/accept arm: Sseq++", d.pos(u, inc), "Sseq = Sseq+1 under seq == Cseq+1",
+		fmt.Sprintf("the server sequence becomes %s under %v; expected Sseq+1 under seq == Cseq+1 (consecutive numbers, no holes after skipped duplicates)", val, linsOf(paths)))
+	for _, st := range starts {
+		got := d.name(st.n, st.in.(*ssa.Store).Val)
+		r.Check(strings.HasSuffix(got, ".Sseq.End"), owner+"/start from end of log", d.pos(u, st), got, "numbering starts from "+got+", expected the recorded end of the log")
+	}
+	docs := d.calls("NewOperationDoc")
+	if len(docs) != 1 {
+		r.Bad(owner+"/accept arm: document", u.Pos(fn.Pos()), fmt.Sprintf("%d calls of NewOperationDoc, expected one", len(docs)))
+		return
+	}
+	doc := docs[0]
+	args := doc.in.(ssa.CallInstruction).Common().Args
+	a2 := abstractLin(d.linear(doc.n, args[2]), pushAbs).String()
+	afterInc := false
+	if load, ok := args[2].(ssa.Instruction); ok {
+		afterInc = d.dominates(inc, dins{doc.n, load})
+	}
+	good := len(args) == 4 && d.name(doc.n, args[1]) == "$0.DUID" && a2 == "+CP.Sseq" && afterInc && d.name(doc.n, args[3]) == "$0.collectionDoc.Num" &&
+		strings.HasPrefix(d.name(doc.n, args[0]), "$0.gotPushPullPack.Operations[")
+	r.Check(good, owner+"/accept arm: document", d.pos(u, doc), "NewOperationDoc(op, DUID, incremented Sseq, collection number)",
+		fmt.Sprintf("the stored document is built from (%s, %s, %s [after increment: %v], %s)", d.name(doc.n, args[0]), d.name(doc.n, args[1]), a2, afterInc, d.name(doc.n, args[3])))
+	okApp := len(apps) == 1 && d.dominates(doc, apps[0]) && origins(apps[0].in.(*ssa.Store).Val)["call:schema.NewOperationDoc"]
+	r.Check(okApp, owner+"/accept arm: append", d.pos(u, doc), "the document is appended once", "the built document is not appended exactly once to pushingOperations")
+	syncs := d.calls("SyncCseq")
+	okSync := len(syncs) == 1 && d.dominates(doc, syncs[0])
+	if okSync {
+		sa := syncs[0].in.(ssa.CallInstruction).Common().Args
+		okSync = abstractLin(d.linear(syncs[0].n, sa[1]), pushAbs).String() == "+OP.Seq" && d.name(syncs[0].n, sa[0]) == "$0.currentCP"
+	}
+	r.Check(okSync, owner+"/accept arm: Cseq advance", d.pos(u, doc), "SyncCseq(op.Seq) after the append", "the checkpoint's client sequence is not advanced to the accepted operation's sequence after it is appended")
+}
 
-	// initial value before the loop: Sseq.End
-	for _, st := range storesTo(fn, "$0.currentCP.Sseq") {
-		if !inLoop(st.Block()) {
-			got := canonName(st.Val)
-			r.Check(strings.HasSuffix(got, ".Sseq.End"), owner+"/start from end of log", u.Pos(st.Pos()), got, "numbering starts from "+got+", expected the recorded end of the log")
-		}
+func linsOf(ps []litPath) [][]string {
+	var out [][]string
+	for _, p := range ps {
+		out = append(out, p.lins)
 	}
+	return out
+}
 
-	var doc *ssa.Call
-	for _, c := range callsNamed(fn, "NewOperationDoc") {
-		doc, _ = c.(*ssa.Call)
+func strsOf(ps []litPath) [][]string {
+	var out [][]string
+	for _, p := range ps {
+		out = append(out, p.strs)
 	}
-	if doc == nil {
-		r.Lost(owner + ": NewOperationDoc call")
-	} else {
-		args := doc.Call.Args
-		a2 := abstractLin(canonLinear(args[2]), pushAbs).String()
-		load, _ := args[2].(*ssa.UnOp)
-		afterInc := load != nil && instrDominates(inc, load)
-		good := len(args) == 4 && canonName(args[1]) == "$0.DUID" && a2 == "+CP.Sseq" && afterInc && canonName(args[3]) == "$0.collectionDoc.Num" &&
-			strings.HasPrefix(canonName(args[0]), "$0.gotPushPullPack.Operations[")
-		r.Check(good, owner+"/accept arm: document", u.Pos(doc.Pos()), "NewOperationDoc(op, DUID, incremented Sseq, collection number)",
-			fmt.Sprintf("the stored document is built from (%s, %s, %s [after increment: %v], %s)", canonName(args[0]), canonName(args[1]), a2, afterInc, canonName(args[3])))
-		apps := storesTo(fn, "$0.pushingOperations")
-		okApp := len(apps) == 1 && instrDominates(doc, apps[0]) && origins(apps[0].Val)["call:schema.NewOperationDoc"]
-		r.Check(okApp, owner+"/accept arm: append", u.Pos(doc.Pos()), "the document is appended once", "the built document is not appended exactly once to pushingOperations")
-		var syncs []ssa.CallInstruction
-		syncs = callsNamed(fn, "SyncCseq")
-		okSync := len(syncs) == 1 && instrDominates(doc, syncs[0].(ssa.Instruction))
-		if okSync {
-			a := abstractLin(canonLinear(syncs[0].Common().Args[1]), pushAbs).String()
-			okSync = a == "+OP.Seq" && canonName(syncs[0].Common().Args[0]) == "$0.currentCP"
-		}
-		r.Check(okSync, owner+"/accept arm: Cseq advance", u.Pos(doc.Pos()), "SyncCseq(op.Seq) after the append", "the checkpoint's client sequence is not advanced to the accepted operation's sequence after it is appended")
-	}
+	return out
 }
 
 func errorCodeName(u *Universe, code int64) string {
